@@ -113,12 +113,21 @@ MODEL_OPS = {
 }
 
 
-def run_pair(label, f, g, Wf, pred, exact, cond, res, t=8.0):
+_TIMEOUTS = {}      # per worker process: label -> number of watchdog hits (a hanging routine must not stall the whole check)
+
+
+def run_pair(label, f, g, Wf, pred, exact, cond, res, t=2.5):
+    if _TIMEOUTS.get(label, 0) >= 2:
+        res['skipped'] += 1; return
     s1, o1 = call(f, Wf.copy(), t=t)
-    s2, o2 = call(g, Wf.copy(), t=t)
+    s2, o2 = ('timeout', None) if s1 == 'timeout' else call(g, Wf.copy(), t=t)
     res['npairs'] += 1
     if s1 == 'timeout' or s2 == 'timeout':
-        res['timeouts'] += 1; return
+        # these routines are deterministic and finish in milliseconds at n <= 10: a variant that does not return does not
+        # "return what its counterpart returns"
+        _TIMEOUTS[label] = _TIMEOUTS.get(label, 0) + 1
+        res['timeouts'] += 1
+        res['fails'].append((label, pred, {'first': s1, 'second': s2, 'why': 'no result within %.1fs' % t}, cond)); return
     if s1 == 'exc' and s2 == 'exc' and exc_kind(o1) == exc_kind(o2):
         res['both_raise'][label] = res['both_raise'].get(label, 0) + 1; return
     if s1 != 'ok' or s2 != 'ok':
@@ -135,7 +144,7 @@ def run_case(case):
     kind = case['kind']; n = len(W)
     Wf = cc.fl(W)
     sym = cc.is_sym(W)
-    res = {'fails': [], 'npairs': 0, 'timeouts': 0, 'both_raise': {}, 'nonzero': False, 'model': []}
+    res = {'fails': [], 'npairs': 0, 'timeouts': 0, 'skipped': 0, 'both_raise': {}, 'nonzero': False, 'model': []}
     cond = {'symmetric': sym}
     if kind in ('01u', '01d'):
         for label, f, g, exact in pairs_on01(bct, sym):
@@ -234,7 +243,7 @@ def main():
     lines, meta = [], []
     for c, r in zip(cases, results):
         W, _ = cc.case_mats(c)
-        ck.count('kind:' + c['kind']); ck.count('n=%d' % len(W)); ck.count('pairs evaluated', r['npairs']); ck.count('timeouts', r['timeouts'])
+        ck.count('kind:' + c['kind']); ck.count('n=%d' % len(W)); ck.count('pairs evaluated', r['npairs']); ck.count('timeouts', r['timeouts']); ck.count('pairs skipped after repeated timeouts', r['skipped'])
         for k, v in r['both_raise'].items():
             ck.count('both-raise:' + k, v)
         ck.case(sample={'kind': c['kind'], 'tag': c['tag'], 'W': cc.fstr(W), 'pairs': r['npairs']} if r['nonzero'] else None,
